@@ -10,7 +10,8 @@ PROP = 'C06'
 DIAG_LINES_ARE_PROPERTY = True
 TARGETS = ['theories/Proofs/StrictProofs.v', 'theories/Run/RunLoad.v']
 RULE = ('every text is loaded with strict=true and strict=false: valid documents, documents with one injected fault of each of 14 classes '
-        '(recoverable and hard), documents with several faults, token-level mutations (delete / duplicate / replace); '
+        '(recoverable and hard), documents with several faults, token-level mutations (delete / duplicate / replace), IF_DATA under an '
+        'A2ML definition (conforming and with single-token deviations); '
         'non-trivial = the two modes differ in outcome or log; distinct = distinct text')
 ASSUMPTIONS = ['relation (3) of the property is only evaluated for inputs without IF_DATA, as the property states']
 DEPRECATION = {'BlockRefDeprecated', 'EnumRefDeprecated'}
@@ -34,6 +35,15 @@ def gen_texts(rng, tier):
                 texts.append((kind, dev.text))
             except Exception:
                 continue
+    # IF_DATA described by an A2ML block: conforming instances and single-token deviations of them (an identifier where a
+    # string is expected, strings longer than char[n], ...), which the two modes treat differently by design
+    from checks import a2mlgen as g, c18
+    for i in range(25 if tier == 'quick' else 3000):
+        d = g.gen_definition(rng, rng.choice([1, 2, 3]))
+        a2ml = g.render_definition(d)
+        blocks = [b[0] for b in c18.mixed_blocks(rng, d, 2, rng.choice([0, 2, 4]))]
+        for b in blocks[:4]:
+            texts.append(('a2ml-ifdata', c18.document(a2ml, [b])))
     # token-level mutations of valid documents
     m = 80 if tier == 'quick' else 15000
     for i in range(m):
